@@ -193,6 +193,73 @@ def retarget(ctx):
     return ctx.pmap(_retarget_shard, [(sh, spans) for sh in shard_round_robin(bits, 16)])
 
 
+def work_and_windows(ctx):
+    """block_work / chain_work against Core's GetBlockProof (2^256 // (target + 1)); the retarget window's first height for
+    every height of three periods; hash_rate against exact rational arithmetic."""
+    from fractions import Fraction
+
+    from btclib.block import proof_of_work as pw
+
+    st = Stats()
+    errs = lib_errors()
+    alpha = alphabet(ctx.pick(16, 40), ctx.seed)
+    works = []
+    for e in range(0, 36):
+        for m in alpha:
+            nc = (e << 24) | m
+            b = nc.to_bytes(4, "big")
+            val, neg, over = set_compact(nc)
+            st.evals += 1
+            exp = None if (neg or over or val == 0) else (1 << 256) // (val + 1)   # Core: bnTarget == 0 or negative or overflow -> 0 work
+            try:
+                got = pw.block_work(b)
+            except errs:
+                got = None
+            if exp is not None:
+                st.nontrivial += 1
+            if got != exp and not (exp is None and got == 0):
+                st.violation("C17/work/block_work", {"bits": b.hex()}, got, exp)
+            if exp is not None and len(works) < 40:
+                works.append((b, exp))
+    for k in range(0, len(works) + 1, 5):
+        st.evals += 1
+        seq = [b for b, _ in works[:k]]
+        try:
+            got = pw.chain_work(seq)
+        except errs:
+            got = None
+        if got != sum(w for _, w in works[:k]):
+            st.violation("C17/work/chain_work", {"blocks": k}, got, sum(w for _, w in works[:k]))
+    for hgt in range(-1, 3 * 2016 + 2):
+        st.evals += 1
+        exp = hgt - 2015 if hgt >= 0 and (hgt + 1) % 2016 == 0 else None
+        try:
+            got = pw.retarget_first_height(hgt)
+        except errs:
+            got = None
+        if exp is not None:
+            st.nontrivial += 1
+        if got != exp and not (hgt < 0 and exp is None):
+            st.violation("C17/retarget/first-height", {"last_height": hgt}, got, exp)
+    for diff, span, n in itertools.product((1, 2, 1.5, 10**12, 0.5), (1, 600, 1209600, 0.25), (1, 6, 2016)):
+        st.evals += 1
+        exp = Fraction(diff) * 2**32 * n / Fraction(span)
+        try:
+            got = pw.hash_rate(diff, span, n)
+        except errs:
+            got = None
+        if got is None or abs(Fraction(got) - exp) > exp / 10**12:
+            st.violation("C17/work/hash_rate", {"difficulty": diff, "timespan": span, "blocks": n}, got, float(exp))
+    for bad in ((0, 1, 1), (1, 0, 1), (1, 1, 0), (-1, 1, 1), (1, -5, 1)):
+        st.evals += 1
+        try:
+            pw.hash_rate(*bad)
+            st.violation("C17/work/hash_rate-accepts-nonsense", {"args": bad}, "a rate", "refused")
+        except errs:
+            pass
+    return st
+
+
 # ---------------------------------------------------------------- merkle
 def ref_root(hs):
     mutated = False
@@ -718,6 +785,7 @@ def block_validity(ctx):
 SUBS = [
     ("compact", compact),
     ("retarget", retarget),
+    ("work_and_windows", work_and_windows),
     ("merkle", merkle),
     ("bip158", bip158),
     ("compact_blocks", compact_blocks),
